@@ -190,5 +190,10 @@ def oracle(ctx):
             fails.append(f'WorkingDirectory={last(us, "WorkingDirectory")} was overwritten: {last(svc, "WorkingDirectory")}')
         for f in fails:
             res.oracle_failures.append(dict(op=op, input=text, impl_output=core.dec_line(a)[:900], oracle_expectation=f))
+    # the user's sections may come from drop-ins as well: the same units with their tails ([Unit], [Service], [Install], X- sections,
+    # the own section) moved into drop-ins generate the same services — through the real loader
+    import filespell, os as _os
+    filespell.compare(ctx, [{_os.path.basename(name): text} for ty, name, text in units[:(400 if ctx.thorough else 100)]],
+                      filespell.DROPIN_WAYS, 'C07 user sections in drop-ins')
     res.samples.append(dict(kind='oracle-case', unit=units[0][2]))
     ctx.log(f'oracle: {res.oracle_evals} evaluations, {len(res.oracle_failures)} failures')
